@@ -43,8 +43,8 @@ def cq_str(s_):
 
 PID = "C13"
 PARALLEL = 12
-SHARD = 130            # cases per coqc file: the cost is parsing the case files, 16 of them run side by side
-IMPORTS_BASE = "From Verif Require Import C13.Model C13.Builders C13.Extra C13.Corr.\nFrom VerifGen Require Import C13Tables."
+SHARD = 142            # cases per coqc file: the cost is parsing the case files, 16 of them run side by side
+IMPORTS_BASE = "From Verif Require Import C13.Model C13.Builders C13.Extra C13.Farg C13.Corr.\nFrom VerifGen Require Import C13Tables."
 IMPORTS = IMPORTS_BASE
 CASE_TYPE = "C13.Corr.case"
 RUNNER = "C13.Corr.run"
@@ -1158,6 +1158,49 @@ def _cert(name):
         return f.read()
 
 
+# ---- the farg argument tree (Server.update_farg): JSON form -> the Python object handed to the builder.
+#      {"__inst__": [kind, spec]} stands for an element instance of the caller
+_FARG_AT_CALL = [False, None]      # [a farg was passed, its state right before the (last) call]: read by coq_fa
+
+
+def _farg_inst(kind, spec):
+    import saml2.xmldsig as ds_
+    from saml2 import saml
+
+    if kind == "name_id":
+        return mk_name_id(spec)
+    if kind == "key_info":
+        return ds_.KeyInfo(key_name=[ds_.KeyName(text=spec)])
+    if kind == "encrypted_id":
+        return mk_encrypted_id(True)
+    if kind == "scd":
+        return saml.SubjectConfirmationData(address=spec)
+    raise ValueError(kind)
+
+
+def dec_farg(x):
+    if isinstance(x, dict):
+        if "__inst__" in x:
+            return _farg_inst(*x["__inst__"])
+        return {k: dec_farg(v) for k, v in x.items()}
+    if isinstance(x, list):
+        return [dec_farg(v) for v in x]
+    return x
+
+
+def _with_farg(a, call):
+    """call(in_response_to, **kw) with the case's farg; "reuse": n > 1 = the SAME farg object handed to n calls in a
+    row on one server (earlier requests id-prev1..), the last call is the one observed"""
+    _FARG_AT_CALL[:] = [False, None]
+    if "farg" not in a:
+        return call(a.get("in_response_to"))
+    farg = dec_farg(a["farg"])
+    for i in range(1, a.get("reuse", 1)):
+        call("id-prev%d" % i, farg=farg)
+    _FARG_AT_CALL[:] = [True, copy.deepcopy(farg)]
+    return call(a.get("in_response_to"), farg=farg)
+
+
 def _authn_response_kwargs(a):
     kw = {}
     for k in ("userid", "sign_response", "sign_assertion", "encrypt_assertion", "encrypt_assertion_self_contained",
@@ -1189,7 +1232,18 @@ def b_authn_response(case):
             if k not in ("userid", "name_id", "name_id_policy", "authn", "issuer", "sign_response", "sign_assertion",
                          "session_not_on_or_after"):
                 del kw[k]
-    return meth(_identity(a["identity"]), a.get("in_response_to"), a.get("dest"), a.get("sp_entity_id", world.SP_ID), **kw)
+    return _with_farg(a, lambda irt, **f: meth(_identity(a["identity"]), irt, a.get("dest"), a.get("sp_entity_id", world.SP_ID),
+                                               **dict(kw, **f)))
+
+
+def b_setup_assertion(case):
+    """Server.setup_assertion called directly (the documented way to get at the Assertion): emits a bare Assertion"""
+    a = case["a"]
+    idp = get_idp(case["cfg"], fresh=True)
+    policy = idp.config.getattr("policy", "idp")
+    return _with_farg(a, lambda irt, **f: idp.setup_assertion(
+        _authn(a.get("authn")), world.SP_ID, irt, a.get("dest"), mk_name_id(a.get("name_id")), policy, idp._issuer(), None,
+        _identity(a["identity"]), False, False, **f))
 
 
 def b_ecp_authn_response(case):
@@ -1214,7 +1268,13 @@ def b_attribute_response(case):
         kw["name_id"] = mk_name_id(a["name_id"])
     if a.get("status") is not None:
         kw["status"] = _status(a["status"])
-    return idp.create_attribute_response(_identity(a["identity"]), a.get("in_response_to"), a.get("dest"), world.SP_ID, **kw)
+    if a.get("attributes") is not None:     # the Attribute elements of the query: restrict what is released
+        from saml2 import saml
+
+        kw["attributes"] = [saml.Attribute(name=n, attribute_value=[saml.AttributeValue(text=v) for v in vs])
+                            for n, vs in a["attributes"]]
+    return _with_farg(a, lambda irt, **f: idp.create_attribute_response(_identity(a["identity"]), irt, a.get("dest"), world.SP_ID,
+                                                                        **dict(kw, **f)))
 
 
 def b_name_id_mapping_response(case):
@@ -1326,6 +1386,7 @@ BUILDERS = {
     "manage_name_id_request": b_manage_name_id_request, "manage_name_id_response": b_manage_name_id_response,
     "authn_response": b_authn_response, "ecp_authn_response": b_ecp_authn_response,
     "attribute_response": b_attribute_response, "name_id_mapping_response": b_name_id_mapping_response,
+    "setup_assertion": b_setup_assertion,
     "assertion_id_request_response": b_assertion_id_request_response, "authn_query_response": b_authn_query_response,
     "entity_descriptor": b_entity_descriptor, "entities_descriptor": b_entities_descriptor,
     "signed_entity_descriptor": b_signed_entity_descriptor, "metadata_string": b_metadata_string,
@@ -1338,6 +1399,7 @@ EXC_ENUM = {"TypeError": "type", "ValueError": "value", "AttributeError": "attri
 def produce(case):
     """Run the real builder -> (document text | None, object-or-text for valid_instance, exception kind | None)."""
     del _TO_XMLSEC[:]
+    _FARG_AT_CALL[:] = [False, None]
     try:
         out = BUILDERS[case["b"]](case)
         if isinstance(out, bytes):
@@ -1470,7 +1532,7 @@ def observe(case):
     obs = _observe(case)
     if not case["b"].startswith("lex_"):
         xb = coq_xinfo(case, obs)
-        obs["cb"] = ["BOther" if xb != "XBNone" else coq_binfo(case, obs), xb]
+        obs["cb"] = ["BOther" if xb != "XBNone" else coq_binfo(case, obs), xb, coq_fa(case, obs)]
     return obs
 
 
@@ -1555,6 +1617,8 @@ def expected_exc(case):
         return "attribute"                  # element_to_extension_element gets the signed text
     if b == "authn_response" and a.get("name_id") is None and (a.get("name_id_policy") or {}).get("format") == EMAIL:
         return "saml"                       # "Can't issue email nameids, unknown domain"
+    if b in FARG_BUILDERS and a.get("farg_exc"):
+        return a["farg_exc"]                # a farg the code cannot digest (labelled by the generator; Farg.v has to say so too)
     if b in ("entity_descriptor", "entities_descriptor", "signed_entity_descriptor", "metadata_string") \
             and case["cfg"].get("metadata_key_usage") == "encryption" and "encryption_keypairs" in case["cfg"] \
             and case["cfg"]["encryption_keypairs"] is None:
@@ -1564,22 +1628,23 @@ def expected_exc(case):
 
 def coq_case(case, obs):
     if case["b"] == "lex_instant":
-        return "C13.Corr.mk (XInstant %d%%N %s) BOther XBNone None false false VNA 0" % (case["a"]["ts"], _cq_str(obs["value"]))
+        return "C13.Corr.mk (XInstant %d%%N %s) BOther XBNone None None false false VNA 0" % (case["a"]["ts"], _cq_str(obs["value"]))
     if case["b"] == "lex_sid":
-        return "C13.Corr.mk (XSid %s) BOther XBNone None false false VNA 0" % _cq_str(obs["value"])
+        return "C13.Corr.mk (XSid %s) BOther XBNone None None false false VNA 0" % _cq_str(obs["value"])
     if obs["tree"] is None and case.get("mut") is None and obs["exc"] != expected_exc(case):
         # an exception the unchanged tree does not raise: flagged through a case that cannot agree
-        return "C13.Corr.mk (XSid \"\") BOther XBNone None false false VNA 0"
+        return "C13.Corr.mk (XSid \"\") BOther XBNone None None false false VNA 0"
     t = "None" if obs["tree"] is None else "(Some %s)" % cq_tree(obs["tree"])
     vi = {"true": "VTrue", "false": "VFalse", "crash": "VCrash", "na": "VNA"}[obs["vi"]]
     mut = 0 if case.get("mut") is None else (2 if obs["mut_kind"] in NO_CLAIM else 1)
     if obs.get("cb"):
-        b, xb = obs["cb"]
+        b, xb, fa = obs["cb"]
     else:
         xb = coq_xinfo(case, obs)
         b = "BOther" if xb != "XBNone" else coq_binfo(case, obs)
-    return "C13.Corr.mk XNone %s %s %s %s %s %s %d" % (b, xb, t,
-                                                       cq(bool(obs["xsd"])), cq(bool(obs["xsd_ext"])), vi, mut)
+        fa = "None"                         # the farg term needs the state of the call (computed inside observe())
+    return "C13.Corr.mk XNone %s %s %s %s %s %s %s %d" % (b, xb, fa, t,
+                                                          cq(bool(obs["xsd"])), cq(bool(obs["xsd_ext"])), vi, mut)
 
 
 def explain_term(term):
@@ -2346,6 +2411,211 @@ def gen_metadata(ctx, rng):
     return out
 
 
+# ------------------------------------------------------------------------------- the farg argument tree
+SCM_BEARER = "urn:oasis:names:tc:SAML:2.0:cm:bearer"
+SCM_SENDER_VOUCHES = "urn:oasis:names:tc:SAML:2.0:cm:sender-vouches"
+SCM_HOK = "urn:oasis:names:tc:SAML:2.0:cm:holder-of-key"
+_ABSENT = "<absent>"
+
+
+def _sc_farg(sc, extra=False):
+    f = {"assertion": {"subject": {"subject_confirmation": sc}}}
+    if extra:       # keys nobody reads, at every level
+        f["comment"] = "x"
+        f["assertion"]["issuer"] = {"text": "ignored"}
+        f["assertion"]["subject"]["base_id"] = None
+    return f
+
+
+FARG_METHODS = [_ABSENT, None, SCM_BEARER, SCM_SENDER_VOUCHES, SCM_HOK]
+FARG_SCDS = [_ABSENT, {}, {"address": "192.0.2.7"}, {"recipient": "https://other.example.org/acs"}, {"in_response_to": "id-own"},
+             {"in_response_to": None}, {"recipient": None, "address": None}, {"not_before": "2023-11-14T22:13:20Z"},
+             {"not_on_or_after": "2001-01-01T00:00:00Z"},
+             {"not_before": "2023-11-14T22:13:20Z", "recipient": "urn:example:r", "in_response_to": "_own.2", "address": "a&b<c>",
+              "not_on_or_after": None, "comment": "never written"}]
+FARG_NAMEIDS = [_ABSENT, {"text": "conf-1", "format": PERSISTENT}, {"__inst__": ["name_id", {"text": "conf-2", "spnq": "urn:q"}]},
+                {"text": "c3", "name_qualifier": "urn:nq", "sp_name_qualifier": "urn:spnq", "sp_provided_id": "p", "format": None}, None]
+# fargs that do not reach do_subject at all, or not in one piece: (farg, exception kind)
+FARG_RAISING = [
+    ({"assertion": None}, "type"), ({"assertion": {"subject": None}}, "type"), (_sc_farg(None), "type"), (_sc_farg("bearer"), "type"),
+    (_sc_farg([{"method": SCM_BEARER}]), "type"),                                  # the list form do_subject itself accepts
+    (_sc_farg({"subject_confirmation_data": None}), "type"),
+    (_sc_farg({"subject_confirmation_data": {"__inst__": ["scd", "192.0.2.7"]}}), "type"),
+    (_sc_farg({"method": SCM_HOK}), "attribute"),                                  # holder-of-key without key_info
+    (_sc_farg({"method": {"uri": SCM_BEARER}}), "type"), (_sc_farg({"extra": {"a": "b"}}), "type"),
+    (_sc_farg({"subject_confirmation_data": {"extra": {"a": "b"}}}), "type"),
+    (_sc_farg({"not_on_or_after": "2030-01-01T00:00:00Z"}), "type"),
+    ({"assertion": {"subject": {"name_id": {"text": "q"}}}}, "type"),
+    (_sc_farg({"name_id": "just-a-str"}), "attribute"),
+]
+FARG_SHELLS = [None, {}, {"assertion": {}}, {"assertion": {"subject": {}}}, {"other": {"a": "b"}}, {"assertion": {"issuer": "x"}},
+               {"assertion": {"subject": {"subject_confirmation": {}}}}, {"assertion": {"subject": {"subject_confirmation": {"comment": "x"}}}}]
+
+
+def _farg_base(b, i):
+    a = {"identity": IDENTITIES[i % 3], "in_response_to": "id-1", "dest": world.SP_ACS_POST}
+    if b == "authn_response":
+        a["authn"] = AUTHNS[i % 2]
+        a["userid" if i % 3 else "name_id"] = "user-1" if i % 3 else NAMEIDS[0]
+    elif b == "setup_assertion":
+        a["authn"] = AUTHNS[i % 2]
+        a["name_id"] = NAMEIDS[i % 2]
+    else:
+        a["userid" if i % 2 else "name_id"] = "u1" if i % 2 else NAMEIDS[0]
+    return a
+
+
+def gen_farg(ctx):
+    """The farg dimension of create_authn_response / create_attribute_response / setup_assertion: which of the parts
+    update_farg completes (method, in_response_to, recipient) the caller gave, left out or gave as None; the other
+    members of SubjectConfirmation(Data); the shells around them; trees the code cannot digest; one farg object
+    reused over several calls; combined with signing / encryption / PEFIM and with in_response_to / destination absent.
+    Own generator (fixed seed): the cases drawn from ctx.rng are the same as before this dimension existed."""
+    import random
+
+    rng = random.Random(1313)
+    out = []
+    i = 0
+    for bi, b in enumerate(FARG_BUILDERS):
+        # quick tier: create_authn_response gets every combination, the two other entries (same update_farg, own
+        # plumbing) complementary halves / thirds of them
+        full = ctx.thorough or b == "authn_response"
+        n = 0
+        # method x confirmation data, completely
+        for m in FARG_METHODS:
+            for scd in FARG_SCDS:
+                i += 1
+                n += 1
+                if not full and n % 2 != bi % 2:
+                    continue
+                sc = {}
+                if m is not _ABSENT:
+                    sc["method"] = m
+                if m == SCM_HOK:
+                    sc["key_info"] = {"__inst__": ["key_info", "key-1"]}
+                if scd is not _ABSENT:
+                    sc["subject_confirmation_data"] = scd
+                nid = FARG_NAMEIDS[i % len(FARG_NAMEIDS)] if i % 2 else _ABSENT
+                if nid is not _ABSENT:
+                    sc["name_id"] = nid
+                a = _farg_base(b, i)
+                a["farg"] = _sc_farg(sc, extra=(i % 5 == 0))
+                if i % 7 == 0:
+                    a["in_response_to"] = None
+                if i % 11 == 0:
+                    a["dest"] = None
+                if b != "setup_assertion" and i % 9 == 0:
+                    a["sign_assertion" if i % 2 else "sign_response"] = True
+                out.append(case(b, a, {}, "farg-" + b))
+        # the name id / encrypted id of the confirmation itself
+        for nid in FARG_NAMEIDS[1:]:
+            for m in [_ABSENT, SCM_SENDER_VOUCHES]:
+                i += 1
+                n += 1
+                if not full and n % 2 != bi % 2:
+                    continue
+                sc = {"name_id": nid}
+                if m is not _ABSENT:
+                    sc["method"] = m
+                a = _farg_base(b, i)
+                a["farg"] = _sc_farg(sc)
+                out.append(case(b, a, {}, "farg-" + b))
+        a = _farg_base(b, 1)
+        a["farg"] = _sc_farg({"encrypted_id": {"__inst__": ["encrypted_id", True]}, "base_id": None})
+        out.append(case(b, a, {}, "farg-" + b))
+        # the shells: nothing of the confirmation given; in_response_to / destination given or not
+        for k, shell in enumerate(FARG_SHELLS):
+            for j, (irt, dest) in enumerate([("id-1", world.SP_ACS_POST), (None, world.SP_ACS_POST), ("id-1", None), (None, None)]):
+                i += 1
+                if not ((full and k in (0, 2, 6)) or ctx.thorough or j == (k + bi) % 4):
+                    continue
+                a = _farg_base(b, i)
+                a["farg"], a["in_response_to"], a["dest"] = shell, irt, dest
+                out.append(case(b, a, {}, "farg-shell-" + b))
+        # trees the code cannot digest: nothing is emitted, and the model has to say so as well
+        for k, (farg, exc) in enumerate(FARG_RAISING):
+            i += 1
+            if not full and k % 3 != bi:
+                continue
+            a = _farg_base(b, i)
+            a["farg"], a["farg_exc"] = farg, exc
+            out.append(case(b, a, {}, "farg-raises-" + b))
+        # one farg object handed to several calls in a row (a module-level constant of the deployment): update_farg
+        # writes into it
+        for k, farg in enumerate([_sc_farg({"subject_confirmation_data": {"address": "192.0.2.7"}}), _sc_farg({"method": SCM_SENDER_VOUCHES}),
+                                  {"assertion": {}}, _sc_farg({"subject_confirmation_data": {"recipient": "urn:example:r"}})]):
+            for reuse in [2, 3]:
+                i += 1
+                if not ctx.thorough and reuse != 2 + (k + bi) % 2:
+                    continue
+                a = _farg_base(b, i)
+                a["farg"], a["reuse"] = farg, reuse
+                out.append(case(b, a, {}, "farg-reuse-" + b))
+    # with signing / encryption / PEFIM (update_farg runs twice on the caller's tree) and the configuration's own signing
+    for farg in [_sc_farg({"subject_confirmation_data": {"address": "192.0.2.7"}}), _sc_farg({"method": SCM_SENDER_VOUCHES}),
+                 _sc_farg({"subject_confirmation_data": {"recipient": "urn:example:r", "in_response_to": "id-own"},
+                           "name_id": FARG_NAMEIDS[1]})][:3 if ctx.thorough else 2]:
+        for sr, sa in [(True, None), (None, True), (True, True)]:
+            for enc in [None, "enc", "pefim", "advice"]:
+                if enc is not None and (sr, sa) == (True, True):
+                    continue
+                a = {"identity": IDENTITIES[0], "in_response_to": "id-1", "dest": world.SP_ACS_POST, "userid": "user-1", "authn": AUTHNS[0],
+                     "farg": farg}
+                if sr is not None:
+                    a["sign_response"] = sr
+                if sa is not None:
+                    a["sign_assertion"] = sa
+                if enc == "enc":
+                    a["encrypt_assertion"] = True
+                elif enc == "pefim":
+                    a["pefim"] = True
+                    a["encrypt_cert_advice"] = "sp"
+                elif enc == "advice":
+                    a["encrypted_advice_attributes"] = True
+                out.append(case("authn_response", a, {"idp_sign_assertion": True} if rng.random() < .2 else {}, "farg-sign-enc"))
+        a = {"identity": IDENTITIES[0], "in_response_to": "id-1", "dest": world.SP_ACS_POST, "userid": "user-1", "authn": AUTHNS[0],
+             "pefim": True, "farg": farg}
+        out.append(case("authn_response", a, {"_sp_enc_in_md": False}, "farg-pefim-clear"))
+    # create_attribute_response with the Attribute elements of the query (a restriction on names / values), with and
+    # without a farg of the caller
+    for k, attrs in enumerate([[["givenName", []]], [["givenname", []], ["mail", ["^a@"]]], [["nope", []]], [["givenName", ["^Z"]]]]):
+        a = _farg_base("attribute_response", k)
+        a["attributes"] = attrs
+        if k % 2:
+            a["farg"] = _sc_farg({"subject_confirmation_data": {"address": "192.0.2.7"}})
+        out.append(case("attribute_response", a, {}, "attribute_response-attributes"))
+    # seeded random mixtures
+    for _ in range(150 if ctx.thorough else 24):
+        b = _pick(rng, list(FARG_BUILDERS))
+        sc = {}
+        m = _pick(rng, FARG_METHODS[:4])
+        if m is not _ABSENT:
+            sc["method"] = m
+        scd = {}
+        for k, vs in [("address", ["192.0.2.7", "2001:db8::1", None]), ("recipient", [URLS[1], "", None]),
+                      ("in_response_to", IDS + [None]), ("not_before", ["2023-11-14T22:13:20Z", "2023-01-01T00:00:00Z", None])]:
+            if rng.random() < .4:
+                scd[k] = _pick(rng, vs)
+        if scd or rng.random() < .5:
+            sc["subject_confirmation_data"] = scd
+        if rng.random() < .3:
+            sc["name_id"] = _pick(rng, FARG_NAMEIDS[1:])
+        i += 1
+        a = _farg_base(b, i)
+        a["farg"] = _sc_farg(sc, extra=rng.random() < .3)
+        a["in_response_to"] = _pick(rng, [None] + IDS)
+        out.append(case(b, a, {}, "farg-random-" + b))
+    # one injected defect into a sample of these outputs
+    muts = []
+    pool = [c for c in out if not c["a"].get("farg_exc")]
+    for _ in range(60 if ctx.thorough else 12):
+        c = copy.deepcopy(pool[rng.randrange(len(pool))])
+        c["mut"] = rng.randrange(1 << 30)
+        c["tag"] = "mut:" + c["tag"]
+        muts.append(c)
+    return out + muts
+
+
 def gen_lex(ctx, rng):
     out = []
     day = 86400
@@ -2379,7 +2649,7 @@ def generate(ctx):
         c["mut"] = rng.randrange(1 << 30)
         c["tag"] = "mut:" + c["tag"]
         muts.append(c)
-    return cases + muts + gen_lex(ctx, rng)
+    return cases + muts + gen_lex(ctx, rng) + gen_farg(ctx)
 
 
 def nontrivial(case_, obs):
@@ -2448,6 +2718,12 @@ UNDER_THEOREM = {
     "create_authn_query_response (identifiers of its assertions)":
         "c13_authn_query_response_own_ids_unique, c13_authn_query_response_sample_ok (after fix 8ef9e86e; the pinned snapshot: "
         "c13_authn_query_response_ids_v0_never_unique, _v0_refuted)",
+    "Server.update_farg + argtree.is_set / add_path + s_utils.factory + assertion.do_subject / do_subject_confirmation (the "
+    "Subject of the assertions of create_authn_response, create_attribute_response and setup_assertion, from the farg "
+    "argument tree of the caller: any nesting of dicts / str / None / instances / lists)":
+        "c13_update_farg_method_set, c13_update_farg_method, c13_update_farg_in_response_to, c13_update_farg_recipient (what "
+        "the caller set is kept, what was left out or None gets the default), c13_farg_subject_method_present (no domain "
+        "restriction), c13_farg_subject_valid, c13_farg_subject_default_valid, c13_farg_sample",
     "xs:ID uniqueness as evaluated on every emitted document": "c13_ids_unique_reflect",
     "s_utils.sid / time_util.instant": "c13_sid_lexical, c13_instant_lexical",
     "SamlBase._to_element_tree (every class, every object)": "c13_serialiser + c13_table_consistent",
@@ -2455,8 +2731,8 @@ UNDER_THEOREM = {
 CORRESPONDENCE_ONLY = [
     "create_authz_decision_query", "create_authz_decision_query_using_assertion", "create_authn_query",
     "create_ecp_authn_request",
-    "create_authn_response / create_authn_request_response (the Assertion: C09's assembly; here validated, not modelled)",
-    "create_ecp_authn_request_response", "create_attribute_response (assertion part)", "create_assertion_id_request_response",
+    "create_authn_response / create_authn_request_response (the Assertion apart from its Subject: C09's assembly; here validated, not modelled)",
+    "create_ecp_authn_request_response", "create_attribute_response (assertion part apart from the Subject)", "create_assertion_id_request_response",
     "create_authn_query_response (assertion part)",
     "metadata.do_spsso_descriptor / do_idpsso_descriptor / do_aa / do_aq / do_pdp_descriptor, do_uiinfo, do_endpoints, "
     "do_contact_person_info, do_key_descriptor, entity attributes / categories (inside entity_descriptor)",
@@ -2480,6 +2756,16 @@ RULE = ("quick: complete AllowCreate lattice nameid_format(4) x configured forma
         "exception instances of every class of the live EXCEPTION2STATUS table, unlisted built-in / saml2 classes and "
         "application subclasses (with message, without arguments, with a context dictionary); "
         "authn query responses for a subject with 0..3 sessions; identities with int / bool / float values; "
+        "the farg argument tree of create_authn_response (every combination), create_attribute_response and setup_assertion "
+        "(complementary halves; thorough: every combination): method(absent, None, bearer, sender-vouches, holder-of-key with "
+        "key info) x confirmation data(absent, {}, each of address / recipient / in_response_to / not_before / "
+        "not_on_or_after alone, given as None, all together) with a NameID of the confirmation as dict / instance / None, "
+        "keys nobody reads at every level, the shells (None, {}, assertion / subject / subject_confirmation empty) x "
+        "in_response_to(2) x destination(2), 14 trees the code cannot digest (None / str / list / instance where a dict is "
+        "subscripted, holder-of-key without key info, unknown dict-valued keys, duplicated keyword), one farg object handed to 2 "
+        "and 3 calls in a row, sign_response / sign_assertion / encryption / PEFIM (also without encryption certificate) on top, "
+        "the `attributes` restriction of create_attribute_response, seeded mixtures (own generator, fixed seed: the cases drawn "
+        "before are unchanged); "
         "metadata generation over roles x ui_info / organisation / contacts / entity attributes "
         "and categories / eIDAS options / endpoints / key usage / signing; seeded random mixtures; plus one injected defect "
         "(swap, drop / duplicate child, drop / corrupt / add attribute, foreign child, stray text) into a sample of the outputs; "
@@ -2516,6 +2802,9 @@ ASSUMPTIONS = [
     "RequestedAuthnContext, authn dicts name a class_ref, organisations have name + display_name + url, eIDAS "
     "requested attributes are known to an attribute converter",
     "instant(): time stamps from 1 to the end of year 9999 (four-digit years); sid(): any string of ASCII letters / digits",
+    "farg: a str leaf has the lexical form of the attribute it becomes (in_response_to an NCName, not_before a dateTime in "
+    "the library's own UTC spelling - valid_instance rejects fractions / offsets -, method a non-empty URI); the NameID of the "
+    "subject (identifier database) is taken as observed and policy.not_on_or_after() from the Conditions of the same assertion",
     "a call that raises emits nothing: recorded in the histogram (exceptions), not judged",
 ]
 
@@ -2943,6 +3232,70 @@ def xi_manage_name_id_request(case, obs):
         cq_otree(inst_tree(mk_encrypted_id(a.get("encrypted_id")))), cq_ostr(a.get("new_id")),
         cq_otree(inst_tree(mk_encrypted_id(a.get("new_encrypted_id"), samlp.NewEncryptedID))), cq_b(a.get("terminate")),
         cq_b(a.get("consent")), _ext_content(a.get("extensions")), cq_signing(a.get("sign"), _should_sign(case)), _ob(obs)))
+
+
+# ------------------------------------------------------------------------------- the farg argument tree (Farg.v)
+FARG_BUILDERS = ("authn_response", "attribute_response", "setup_assertion")
+
+
+def cq_farg(x):
+    import saml2
+
+    if x is None:
+        return "FNone"
+    if isinstance(x, str):
+        return "(FStr %s)" % cq_str(x)
+    if isinstance(x, dict):
+        if not all(isinstance(k, str) for k in x):
+            raise NotModelled("farg key")
+        return "(FDict [%s])" % "; ".join("(%s, %s)" % (cq_str(k), cq_farg(v)) for k, v in x.items())
+    if isinstance(x, list):
+        return "(FList [%s])" % "; ".join(cq_farg(v) for v in x)
+    if isinstance(x, saml2.SamlBase):
+        return "(FInst %s)" % cq_tree(inst_tree(x))
+    raise NotModelled("farg value %r" % (x,))
+
+
+def _clear_assertions(t):
+    if tuple(t[0]) == (SAML_NS, "Assertion"):
+        return [t]
+    return _kids(t, SAML_NS, "Assertion")
+
+
+def coq_fa(case, obs):
+    """option fa_args: for every call of create_authn_response / create_attribute_response / setup_assertion whose
+    document shows an Assertion in the clear (a farg passed or not), and for the calls that raise because of their farg.
+    The NameID of the subject is taken as observed (identifier database: C09), the NotOnOrAfter instant from the
+    Conditions element of the same assertion (policy: C19)."""
+    a = case["a"]
+    if case.get("mut") is not None or case["b"] not in FARG_BUILDERS:
+        return "None"
+    passed, farg = _FARG_AT_CALL
+    if passed != ("farg" in a):
+        return "None"
+    url = world.SP_ID if case["b"] == "attribute_response" else a.get("dest")
+    t = obs["tree"]
+    nid, noa = None, ""
+    if t is None:
+        if not a.get("farg_exc") or obs["exc"] != a["farg_exc"]:
+            return "None"
+    else:
+        asserts = _clear_assertions(t)
+        if not asserts:
+            return "None"
+        subj = _kids(asserts[0], SAML_NS, "Subject")
+        if subj:
+            nids = _kids(subj[0], SAML_NS, "NameID")
+            nid = nids[0] if nids else None
+        # policy.not_on_or_after(sp): read off the Conditions of the same assertion (policy.conditions computes it
+        # separately, at the same instant), not off the element the model is compared with
+        for cond in _kids(asserts[0], SAML_NS, "Conditions"):
+            noa = _attr(cond, "NotOnOrAfter") or ""
+    try:
+        return "(Some (Build_fa_args %s %s %s %s %s))" % (cq_farg(farg), cq_ostr(a.get("in_response_to")), cq_ostr(url),
+                                                         cq_otree(nid), cq_str(noa))
+    except NotModelled:
+        return "None"
 
 
 XMODELLED = {"attribute_query": xi_attribute_query, "name_id_mapping_request": xi_name_id_mapping_request,
